@@ -109,20 +109,8 @@ Definition slice_indexes_ses (len : Z) (sl : list Z) : list Z :=
   if 0 <? step then up_from (Z.to_nat len) start stop step
   else down_from (Z.to_nat len + 1) start stop step.
 
-Definition sel_loc_gen (ses : bool) (f : frag) (last : bool) (root : jv) (x : pv) : list pv :=
-  let '(p, v) := x in
-  match f, v with
-  | FSlice sl, JArr l =>
-      if ses then
-        flat_map (fun i => match nth_error l (Z.to_nat i) with Some c => [(p ++ [FNth i], c)] | None => [] end)
-                 (slice_indexes_ses (Z.of_nat (length l)) sl)
-      else
-        flat_map (fun i => match nth_error l (Z.to_nat i) with Some c => [(p ++ [FNth i], c)] | None => [] end)
-                 (slice_indexes (Z.of_nat (length l)) sl)
-  | _, _ => []
-  end.
-
-Definition sel_loc (f : frag) (last : bool) (root : jv) (x : pv) : list pv :=
+(* [six] = how a slice picks its indexes; the specification uses [slice_indexes] (Get's) *)
+Definition sel_loc_six (six : Z -> list Z -> list Z) (f : frag) (last : bool) (root : jv) (x : pv) : list pv :=
   let '(p, v) := x in
   match f with
   | FRoot => [([FRoot], root)]
@@ -140,11 +128,35 @@ Definition sel_loc (f : frag) (last : bool) (root : jv) (x : pv) : list pv :=
   | FSlice sl =>
       match v with
       | JArr l => flat_map (fun i => match nth_error l (Z.to_nat i) with Some c => [(p ++ [FNth i], c)] | None => [] end)
-                           (slice_indexes (Z.of_nat (length l)) sl)
+                           (six (Z.of_nat (length l)) sl)
       | _ => []
       end
   | FFilter e => filter (fun pc => existsb is_true (evals e root (snd pc))) (child_locs p v)
   end.
+
+Definition sel_loc := sel_loc_six slice_indexes.
+
+Fixpoint eval_loc_six (six : Z -> list Z -> list Z) (x : expr) (root : jv) (pvs : list pv) : list pv :=
+  match x with
+  | [] => pvs
+  | f :: x' => eval_loc_six six x' root (flat_map (sel_loc_six six f (match x' with [] => true | _ => false end) root) pvs)
+  end.
+Definition locate_six (six : Z -> list Z -> list Z) (x : expr) (d : jv) : list pv :=
+  match x with [] => [] | _ => eval_loc_six six x d [([], d)] end.
+
+(* the slice rule of Set, Del, Remove and Modify (set.go, modify.go, slice.go remove): the end
+   is INCLUSIVE, defaults to the last element, and negative bounds that fall before the start of
+   the array select nothing. Recorded known finding C13-slice-inclusive-end. *)
+Definition slice_indexes_incl (len : Z) (sl : list Z) : list Z :=
+  let start := nth 0 sl 0 in
+  let stop := nth 1 sl (-1) in
+  let step := nth 2 sl 1 in
+  let start := if start <? 0 then len + start else start in
+  let stop := if stop <? 0 then len + stop else stop in
+  if (start <? 0) || (stop <? 0) || (len <=? start) || (step =? 0) then [] else
+  let stop := if len <=? stop then len - 1 else stop in
+  if 0 <? step then up_from (Z.to_nat len) start (stop + 1) step
+  else down_from (Z.to_nat len + 1) start (stop - 1) step.
 
 Fixpoint eval_loc (x : expr) (root : jv) (pvs : list pv) : list pv :=
   match x with
@@ -197,7 +209,7 @@ Qed.
 
 Lemma sel_loc_values f last root p v : map snd (sel_loc f last root (p, v)) = sel f last root v.
 Proof.
-  destruct f; simpl.
+  unfold sel_loc. destruct f; simpl.
   - reflexivity.
   - reflexivity.
   - destruct v; try reflexivity. destruct (map_get k m); reflexivity.
@@ -224,16 +236,5 @@ Qed.
 Corollary locate_spec_values x d : map snd (locate_spec x d) = get_spec x d.
 Proof. destruct x; [reflexivity|]. unfold locate_spec, get_spec. rewrite locate_values. reflexivity. Qed.
 
-(* the known-finding variant: slices normalised by startEndStep *)
-Definition sel_loc_ses (f : frag) (last : bool) (root : jv) (x : pv) : list pv :=
-  match f, snd x with
-  | FSlice _, JArr _ => sel_loc_gen true f last root x
-  | _, _ => sel_loc f last root x
-  end.
-Fixpoint eval_loc_ses (x : expr) (root : jv) (pvs : list pv) : list pv :=
-  match x with
-  | [] => pvs
-  | f :: x' => eval_loc_ses x' root (flat_map (sel_loc_ses f (match x' with [] => true | _ => false end) root) pvs)
-  end.
-Definition locate_ses (x : expr) (d : jv) : list pv :=
-  match x with [] => [] | _ => eval_loc_ses x d [([], d)] end.
+(* the known-finding variant of Locate/Walk: slices normalised by startEndStep *)
+Definition locate_ses (x : expr) (d : jv) : list pv := locate_six slice_indexes_ses x d.
